@@ -264,3 +264,164 @@ func (g *Gen) addrFacts(a Val, st *State) Term {
 	}
 	return ln
 }
+
+func init() {
+	// sort.Search(n, f): least index in [0,n] at which the (monotone) predicate f becomes true.
+	// The closure must be under a contract `ensures result == X(i)`; the model demands monotonicity of X on
+	// [0,n) as an obligation (sort.Search's documented precondition) and returns the boundary.
+	externModels["sort.Search"] = func(f *Frame, instr ssa.Instruction, st *State, args []Val, pos token.Pos) []Val {
+		g := f.g
+		src := f.text(pos)
+		n := args[0].Comps[0]
+		var ci *closureInfo
+		if len(f.curCallArgs) == 2 {
+			ci = f.closures[f.curCallArgs[1]]
+			if ci == nil {
+				if fn, ok := f.curCallArgs[1].(*ssa.Function); ok {
+					ci = &closureInfo{fn: fn}
+				}
+			}
+		}
+		r := g.freshVal("search", tInt)
+		g.assume(st.cond, tAnd(tCmp("<=", intLit(0), r.Comps[0]), tCmp("<=", r.Comps[0], n)))
+		if ci == nil {
+			g.havocCallees["sort.Search with an unresolved predicate in "+shortKey(g.ctx.funcKey(f.fn))] = true
+			return []Val{r}
+		}
+		ct := g.ctx.contracts[g.ctx.funcKey(ci.fn)]
+		var X SExpr
+		if ct != nil {
+			for _, e := range ct.Ensures {
+				if b, ok := e.Expr.(*SBinary); ok && b.Op == "==" {
+					if id, ok := b.X.(*SIdent); ok && id.Name == "result" {
+						X = b.Y
+					}
+				}
+			}
+		}
+		if X == nil {
+			g.havocCallees["sort.Search predicate without `ensures result == ...` contract: "+shortKey(g.ctx.funcKey(ci.fn))] = true
+			return []Val{r}
+		}
+		g.usedContracts[g.ctx.funcKey(ci.fn)] = true
+		evalAt := func(name string) (Term, Term, []string, error) {
+			bn := fmt.Sprintf("q_%s_%d", name, g.nsym)
+			g.nsym++
+			iv := Val{Typ: tInt, Comps: []Term{{S: bn, Sort: SInt}}}
+			f.curBindings = ci.bindings
+			ev := f.calleeEval(ci.fn, st, nil, []Val{iv}, nil)
+			f.curBindings = nil
+			g.noName++
+			t, err := ev.evalBool(X)
+			var reqs []Term
+			for _, rq := range ct.Requires {
+				rt, e2 := ev.evalBool(rq.Expr)
+				if e2 != nil && err == nil {
+					err = e2
+				}
+				reqs = append(reqs, rt)
+			}
+			g.noName--
+			return t, tAnd(reqs...), []string{bn}, err
+		}
+		xi, reqi, bi, err := evalAt("i")
+		xj, _, bj, err2 := evalAt("j")
+		if err != nil || err2 != nil {
+			if err == nil {
+				err = err2
+			}
+			g.specErrs = append(g.specErrs, fmt.Sprintf("sort.Search predicate contract of %s: %v", shortKey(g.ctx.funcKey(ci.fn)), err))
+			return []Val{r}
+		}
+		i, j := Term{S: bi[0], Sort: SInt}, Term{S: bj[0], Sort: SInt}
+		inRange := func(x Term) Term { return tAnd(tCmp("<=", intLit(0), x), tCmp("<", x, n)) }
+		// obligations
+		g.oblige(st, "pre", pos, src+" :: predicate precondition on [0,n)", raw(fmt.Sprintf("(forall ((%s Int)) %s)", i.S, tImp(inRange(i), reqi).S), SBool))
+		g.oblige(st, "pre", pos, src+" :: predicate monotone on [0,n)", raw(fmt.Sprintf("(forall ((%s Int) (%s Int)) %s)", i.S, j.S,
+			tImp(tAnd(inRange(i), inRange(j), tCmp("<", i, j), xi), xj).S), SBool))
+		// ground instances of the boundary facts (seeds for E-matching): at 0, r-1 and r
+		evalGround := func(at Term) (Term, bool) {
+			f.curBindings = ci.bindings
+			ev := f.calleeEval(ci.fn, st, nil, []Val{{Typ: tInt, Comps: []Term{at}}}, nil)
+			f.curBindings = nil
+			g.noName++
+			t, err := ev.evalBool(X)
+			g.noName--
+			return t, err == nil
+		}
+		rr := r.Comps[0]
+		if x0, ok := evalGround(intLit(0)); ok {
+			g.assume(st.cond, tImp(tCmp(">", n, intLit(0)), tEq(x0, tCmp("<=", rr, intLit(0)))))
+		}
+		if xp, ok := evalGround(tSub(rr, intLit(1))); ok {
+			g.assume(st.cond, tImp(tCmp(">", rr, intLit(0)), tNot(xp)))
+		}
+		if xr, ok := evalGround(rr); ok {
+			g.assume(st.cond, tImp(tCmp("<", rr, n), xr))
+		}
+		// result
+		g.emit("(assert " + tImp(st.cond, raw(fmt.Sprintf("(forall ((%s Int)) %s)", i.S,
+			tAnd(tImp(tAnd(tCmp("<=", intLit(0), i), tCmp("<", i, r.Comps[0])), tNot(xi)), tImp(tAnd(tCmp("<=", r.Comps[0], i), tCmp("<", i, n)), xi)).S), SBool)).S + ")")
+		return []Val{r}
+	}
+}
+
+func init() {
+	// slices.Insert(s, i, v...): the elements of s with v inserted at index i; may reuse s's backing array.
+	externModels["slices.Insert[]"] = func(f *Frame, instr ssa.Instruction, st *State, args []Val, pos token.Pos) []Val {
+		g := f.g
+		src := f.text(pos)
+		s, idx, v := args[0], args[1].Comps[0], args[2]
+		sl := under(instr.(ssa.Value).Type()).(*types.Slice)
+		elem := sl.Elem()
+		cs := cellSize(elem)
+		g.oblige(st, "bounds", pos, src+" :: 0 <= i <= len(s)", tAnd(tCmp("<=", intLit(0), idx), tCmp("<=", idx, s.Comps[1])))
+		n := v.Comps[1]
+		newLen := g.name("ilen", tAdd(s.Comps[1], n))
+		inPlace := g.name("inplace", tCmp("<=", newLen, s.Comps[2]))
+		ncap := g.freshComp("ncap", Comp{Sort: SInt, Kind: KSliceCap})
+		g.assume(boolLit(true), tCmp(">=", ncap, newLen))
+		nptr := g.alloc(st, tMul(ncap, intLit(cs)))
+		rptr := g.name("iptr", tIte(inPlace, s.Comps[0], nptr))
+		rcap := g.name("icap", tIte(inPlace, s.Comps[2], ncap))
+		g.frameStore(st, "", rptr, tMul(newLen, intLit(cs)), pos, src)
+		if cs != 1 {
+			g.unsupp("slices.Insert on aggregate elements")
+		}
+		var ls []leafRef
+		leaves(elem, 0, &ls)
+		for _, l := range ls {
+			for ci, c := range l.Comp {
+				k := compKey(l.Key, ci)
+				old := g.heapGet(st, k, arrSort(c.Sort))
+				nn := g.sym("Hi_" + k)
+				g.declare(nn, arrSort(c.Sort))
+				// cell a of the result: index j = a - rptr
+				g.emit(fmt.Sprintf("(assert (forall ((a Int)) (! (= (select %s a) (ite (and (<= %s a) (< a (+ %s %s))) (ite (< (- a %s) %s) (select %s (+ %s (- a %s))) (ite (< (- a %s) (+ %s %s)) (select %s (+ %s (- (- a %s) %s))) (select %s (+ %s (- (- a %s) %s))))) (select %s a))) :pattern ((select %s a)))))",
+					nn, rptr.S, rptr.S, newLen.S,
+					rptr.S, idx.S, old.S, s.Comps[0].S, rptr.S,
+					rptr.S, idx.S, n.S, old.S, v.Comps[0].S, rptr.S, idx.S,
+					old.S, s.Comps[0].S, rptr.S, n.S,
+					old.S, nn))
+				st.heap[k] = Term{S: nn, Sort: arrSort(c.Sort)}
+				if g.topC == nil || !g.topC.IndexFn {
+					continue
+				}
+				// the same facts index-wise (for E-matching on shifted indices)
+				ix := func(p, i Term) string { return g.idxTerm(p, i, cs).S }
+				kk := Term{S: "k", Sort: SInt}
+				g.emit(fmt.Sprintf("(assert (forall ((k Int)) (! (=> (and (<= 0 k) (< k %s)) (= (select %s %s) (ite (< k %s) (select %s %s) (ite (< k (+ %s %s)) (select %s %s) (select %s %s))))) :pattern ((select %s %s)))))",
+					newLen.S, nn, ix(rptr, kk),
+					idx.S, old.S, ix(s.Comps[0], kk),
+					idx.S, n.S, old.S, ix(v.Comps[0], tSub(kk, idx)),
+					old.S, ix(s.Comps[0], tSub(kk, n)),
+					nn, ix(rptr, kk)))
+				// and backwards: every old element is found in the result
+				g.emit(fmt.Sprintf("(assert (forall ((k Int)) (! (=> (and (<= 0 k) (< k %s)) (= (select %s %s) (select %s (ite (< k %s) %s %s)))) :pattern ((select %s %s)))))",
+					s.Comps[1].S, old.S, ix(s.Comps[0], kk), nn, idx.S, ix(rptr, kk), ix(rptr, tAdd(kk, n)), old.S, ix(s.Comps[0], kk)))
+			}
+		}
+		g.bumpTokAt(st, &rptr, hasPtrComps(elem))
+		return []Val{{Typ: instr.(ssa.Value).Type(), Comps: []Term{rptr, newLen, rcap}}}
+	}
+}
